@@ -308,3 +308,10 @@ Proof. repeat split; reflexivity. Qed.
 Lemma sealed : al_supertrait_unsigned arraylength_sealing = true /\
   al_arraytype_bound_sealed arraylength_sealing = true /\ sealed_is_private arraylength_sealing = true.
 Proof. repeat split; reflexivity. Qed.
+
+Lemma roundtrip_ok : forall v, (0 <= v <= 3)%Z -> roundtrip_typechecks v = true.
+Proof.
+  intros v Hv. unfold roundtrip_typechecks, inverse_bound_has_equality.
+  destruct ((v =? 0)%Z || (v =? 2)%Z); reflexivity.
+Qed.
+
